@@ -352,7 +352,33 @@ def c06f(ctx):
         ctx.fail(o, Site(c, 0, 0), "register_callee does not hand back an UndoRegisterCallee")
 
 
+def c06g(ctx):
+    """The probe's `reaches the target` marks start false for every computation it discovers; only a direct read of the
+    target and the backward propagation raise them.  A mark that starts true makes every reachable in-flight query part of
+    a cycle that does not exist (wrong cycle defaults for acyclic programs under concurrency)."""
+    prog = ctx.prog
+    o = ctx.ob("C06.g", "check_cyclic_internal/marks-start-false", "K5", "every `reaches_target` mark the probe creates for a discovered computation is the constant false")
+    bodies = [x for x in prog.bodies.values() if x.name.startswith("Engine::check_cyclic_internal")]
+    n = 0
+    for b in bodies:
+        for s_ in b.calls_to(r"alloc::vec::Vec::<T(, A)?>::push$"):
+            if "bool" not in str(b.local_ty(op_local(s_.node["args"][1]))) if op_local(s_.node["args"][1]) is not None else True:
+                c_ = s_.node["args"][1].get("c")
+                if c_ is None or c_.get("ty") != "bool":
+                    continue
+            n += 1
+            ctx.touch(b)
+            os_ = list(df.origins_of_operand(b, s_.node["args"][1]))
+            if not os_ or any(not (x.kind == "const" and str(x.info) == "false") for x in os_):
+                ctx.fail(o, s_, "the probe marks a newly discovered computation as reaching the target from the start: every in-flight computation reachable from the callee is "
+                         "declared part of a cycle")
+    o.sites = n
+    if n < 1:
+        ctx.fail(o, "(program)", "anchor missing: the push of a fresh mark in check_cyclic_internal")
+
+
 def run(ctx):
+    ctx.run_clause("C06.g", c06g)
     ctx.run_clause("C06.f", c06f)
     ctx.run_clause("C06.d", c06d)
     ctx.run_clause("C06.e", c06e)
